@@ -40,6 +40,9 @@ def one(src):
     if prop.startswith('R'):
         # second round: worktrees /tmp/wt/R<nn>, stored as <prop>-r4..r6
         prop, k = 'C' + prop[1:], str(int(k) + 3)
+    elif prop.startswith('S'):
+        # third round: worktrees /tmp/wt/S<nn>, stored as <prop>-r7, r8
+        prop, k = 'C' + prop[1:], str(int(k) + 6)
     name = '%s-r%s' % (prop, k)
     dest = '/verif/benign/%s' % name
     if os.path.isdir(dest):
@@ -90,7 +93,7 @@ def one(src):
 
 
 def main():
-    srcs = sorted(glob.glob('/tmp/wt/C*/out/ref*') + glob.glob('/tmp/wt/R*/out/ref[0-9]'))
+    srcs = sorted(glob.glob('/tmp/wt/C*/out/ref*') + glob.glob('/tmp/wt/R*/out/ref[0-9]') + glob.glob('/tmp/wt/S*/out/ref[0-9]'))
     if len(sys.argv) > 1:
         srcs = [s for s in srcs if any(a in s for a in sys.argv[1:])]
     with concurrent.futures.ThreadPoolExecutor(6) as ex:
